@@ -81,6 +81,46 @@ theorem ctrRun_idempotent (P C : Nat) (dump : Nat → Nat → List Nat) (combine
     (ctrRun P C dump combine (ctrRun P C dump combine fs)).read .counts = (ctrRun P C dump combine fs).read .counts :=
   ctrRun_result_independent P C dump combine _ fs
 
+/-! ## library histories: `count(); merge(delete)` for any `delete`, repeated runs in one directory -/
+
+theorem ctrRunD_true (P C : Nat) (dump : Nat → Nat → List Nat) (combine : List (Option (List Nat)) → List Nat) (fs : FS) :
+    ctrRunD P C true dump combine fs = ctrRun P C dump combine fs :=
+  Cl.ctrRunD_true P C dump combine fs
+
+/-- whatever `delete` is and whatever was on the disk (stale tables, chunk files an earlier `merge(false)` left behind,
+of runs with more partitions or chunks): the table is the one a fresh directory would get -/
+theorem ctrRunD_result_independent (P C : Nat) (d : Bool) (dump : Nat → Nat → List Nat)
+    (combine : List (Option (List Nat)) → List Nat) (fs fs' : FS) :
+    (ctrRunD P C d dump combine fs).read .counts = (ctrRunD P C d dump combine fs').read .counts := by
+  rw [Cl.ctrRunD_counts, Cl.ctrRunD_counts]
+
+/-- …and it does not depend on `delete` either -/
+theorem ctrRunD_result_delete_irrelevant (P C : Nat) (d d' : Bool) (dump : Nat → Nat → List Nat)
+    (combine : List (Option (List Nat)) → List Nat) (fs : FS) :
+    (ctrRunD P C d dump combine fs).read .counts = (ctrRunD P C d' dump combine fs).read .counts := by
+  rw [Cl.ctrRunD_counts, Cl.ctrRunD_counts]
+
+/-- a history of two library runs in one directory (any partition / chunk counts, any delete flags): the table is that
+of the last run alone in an empty directory -/
+theorem ctr_history_two (P1 C1 P2 C2 : Nat) (d1 d2 : Bool) (dump1 dump2 : Nat → Nat → List Nat)
+    (combine1 combine2 : List (Option (List Nat)) → List Nat) (fs : FS) :
+    (ctrRunD P2 C2 d2 dump2 combine2 (ctrRunD P1 C1 d1 dump1 combine1 fs)).read .counts
+      = (ctrRunD P2 C2 d2 dump2 combine2 []).read .counts :=
+  ctrRunD_result_independent P2 C2 d2 dump2 combine2 _ []
+
+/-- the same object asked again after `merge(false)`: its second `count()` finds no records (nothing is dumped), the second
+merge reads the chunk files the first one kept — the table is the same, for any rendering `combine'` applied to the same inputs -/
+theorem remerge_after_keep (P C : Nat) (d : Bool) (dump : Nat → Nat → List Nat)
+    (combine combine' : List (Option (List Nat)) → List Nat) (fs : FS) :
+    (mergePhase P C d combine' (ctrRunD P C false dump combine fs)).read .counts
+      = (ctrRunD P C d dump combine' fs).read .counts :=
+  Cl.remerge_after_keep P C d dump combine combine' fs
+
+/-- after `merge(false)` every chunk file of the run is still there with what the run dumped -/
+theorem ctrRunD_keep_temp (P C : Nat) (dump : Nat → Nat → List Nat) (combine : List (Option (List Nat)) → List Nat) (fs : FS)
+    (p c : Nat) (hp : p < P) (hc : c < C) : (ctrRunD P C false dump combine fs).read (.temp p c) = some (dump p c) :=
+  Cl.ctrRunD_keep_temp P C dump combine fs p c hp hc
+
 /-! ## non-vacuity: a disk holding a stale table, stale chunk files of a larger run, and a bystander -/
 
 /-- the dump of (partition, chunk) and a `combine` that concatenates what it could read (a missing file shows as 99) -/
@@ -102,5 +142,17 @@ example : (covRun 2 1 exDump exCombine (fun o => o.getD [] ++ [0]) exStale).read
     (covRun 2 1 exDump exCombine (fun o => o.getD [] ++ [0]) exStale).read .counts = some [0, 10] := by decide
 /-- without the counting phase the merge WOULD read stale files: the counting phase is what makes the result independent -/
 example : (mergePhase 2 2 true exCombine exStale).read .counts = some [77, 99, 99, 78] := by decide
+/-- library histories: a first run with 4 partitions and `merge(false)` on a disk with a stale chunk file of this run's
+range (`.temp 0 0`), one outside it (`.temp 3 0`) and a stale table; then a 2-partition run — the table is the second run's alone,
+and the first run's left-over chunk files outside `part < 2` are still there -/
+def exStale2 : FS := [(.temp 0 0, [77]), (.temp 3 0, [78]), (.counts, [5, 5, 5])]
+example : (ctrRunD 2 1 false exDump exCombine (ctrRunD 4 1 false (fun p c => [100 + p + c]) exCombine exStale2)).read .counts = some [0, 10] ∧
+    (ctrRunD 2 1 false exDump exCombine []).read .counts = some [0, 10] ∧
+    (ctrRunD 2 1 true exDump exCombine exStale2).read .counts = some [0, 10] := by decide
+example : ctrRunD 2 1 false exDump exCombine exStale2 = [(.counts, [0, 10]), (.temp 1 0, [10]), (.temp 0 0, [0]), (.temp 3 0, [78])] ∧
+    ctrRunD 2 1 true exDump exCombine exStale2 = [(.counts, [0, 10]), (.temp 3 0, [78])] := by decide
+/-- re-merge after `merge(false)` reads the kept chunk files; after `merge(true)` it would find nothing (99 = missing) -/
+example : (mergePhase 2 1 true exCombine (ctrRunD 2 1 false exDump exCombine exStale2)).read .counts = some [0, 10] ∧
+    (mergePhase 2 1 true exCombine (ctrRunD 2 1 true exDump exCombine exStale2)).read .counts = some [99, 99] := by decide
 
 end KT
